@@ -302,6 +302,25 @@ def section_c(rep):
                 rep.check("C-brute", what, got, brute, rtol=2e-6)
 
             rep.guarded("C", what, run)
+        if len(scope) > 1:
+            # nested integration: integrate(integrate(c, Z1), Z2) is the marginal over Z1 | Z2 (a second operator applied to an integrated circuit)
+            z1 = subsets[1]
+            rest = [v for v in scope if v not in z1]
+            z2 = rest[: max(1, len(rest) // 2)]
+            fold, opt = FLAGS[(n + 2) % 4]
+            semiring = "lse-sum" if n % 3 == 1 else "sum-product"
+            what = tag(it["desc"], Z=[z1, z2], nested=True, fold=fold, optimize=opt, semiring=semiring)
+
+            def run_nested():
+                isc = SF.integrate(SF.integrate(sc, Scope(z1)), Scope(z2))
+                ctx, itc = bridge.compile_circuit(isc, semiring=semiring, fold=fold, optimize=opt)
+                store = prepared_store(ctx, [isc], semiring, 0)
+                x = gen.gen_inputs(sc, 2, 5)
+                got = bridge.eval_compiled(itc, x, semiring)
+                brute = integral_circuit(sc, set(z1) | set(z2), x, store, domains_of(sc))
+                rep.check("C-brute", what, got, brute, rtol=2e-6)
+
+            rep.guarded("C", what, run_nested)
 
 
 # ----------------------------------------------------------------------------- section D
